@@ -1799,7 +1799,11 @@ class RTCSctpTransport(AsyncIOEventEmitter):
             msg_type = data[0]
             if msg_type == DATA_CHANNEL_OPEN and len(data) >= 12:
                 # we should not receive an open for an existing channel
-                assert stream_id not in self._data_channels
+                if stream_id in self._data_channels:
+                    self.__log_debug(
+                        "x DATA_CHANNEL_OPEN for existing stream %d", stream_id
+                    )
+                    return
 
                 (
                     msg_type,
@@ -1844,9 +1848,9 @@ class RTCSctpTransport(AsyncIOEventEmitter):
                 # emit channel
                 self.emit("datachannel", channel)
             elif msg_type == DATA_CHANNEL_ACK:
-                assert stream_id in self._data_channels
-                channel = self._data_channels[stream_id]
-                channel._setReadyState("open")
+                channel = self._data_channels.get(stream_id)
+                if channel is not None:
+                    channel._setReadyState("open")
         elif pp_id == WEBRTC_STRING and stream_id in self._data_channels:
             # emit message
             self._data_channels[stream_id].emit("message", data.decode("utf8"))
